@@ -21,14 +21,24 @@ pub struct ContCase {
     pub content: ContentCase,
     pub dir: DirCase,
     pub pkg: Pkg,
-    /// extra content packs (pack ids 2..), each a small content case
+    /// extra content packs (pack ids 2.. when `id_gap` is 0), each a small content case
     pub extra: Vec<ContentCase>,
+    /// pack ids of the extra packs are spread out: extra number e (0-based) gets id 2 + e * (1 + id_gap)
+    pub id_gap: u16,
 }
 
 impl ContCase {
     pub fn to_json(&self) -> Value {
         json!({"content": self.content.to_json(), "dir": self.dir.to_json(), "pkg": self.pkg.as_str(),
-               "extra": self.extra.iter().map(|c| c.to_json()).collect::<Vec<_>>()})
+               "extra": self.extra.iter().map(|c| c.to_json()).collect::<Vec<_>>(), "id_gap": self.id_gap})
+    }
+    /// Pack id of content pack number `pi` (0 = the main pack, 1.. = the extras).
+    pub fn pack_id(&self, pi: usize) -> u16 {
+        if pi == 0 {
+            1
+        } else {
+            2 + (pi as u16 - 1) * (1 + self.id_gap)
+        }
     }
     pub fn from_json(v: &Value) -> ContCase {
         ContCase {
@@ -36,8 +46,17 @@ impl ContCase {
             dir: DirCase::from_json(v.get("dir").unwrap_or(&Value::Null)),
             pkg: Pkg::parse(jstr(v, "pkg")),
             extra: jarr(v, "extra").iter().map(ContentCase::from_json).collect(),
+            id_gap: v.get("id_gap").and_then(|x| x.as_u64()).unwrap_or(0) as u16,
         }
     }
+}
+
+/// What the container-level knobs of the case were (evidence).
+pub fn observe_cont(case: &ContCase, out: &mut CaseOut) {
+    if !case.extra.is_empty() {
+        out.obs.set("extra_pack_ids", (1..=case.extra.len()).map(|pi| case.pack_id(pi).to_string()).collect::<Vec<_>>().join("+"));
+    }
+    out.obs.inc(if case.dir.free == 0 { "free_data.zero" } else { "free_data.arbitrary" });
 }
 
 /// A small container: a few contents, a "files" store linking entry e to content e of pack 1
@@ -90,7 +109,7 @@ pub fn gen_small(rng: &mut Rng, tier: Tier, pkg: Pkg, n_extra: usize, max_items:
         indexes.push(IndexDef { name: "files_tail".into(), store: 0, offset: 1, count: n_items as u32 - 1 });
     }
     let dir = DirCase { seed: rng.next(), vstores: vec![indexed], stores: vec![files, misc], indexes, defer: 0, free: if rng.chance(1, 2) { rng.next() | 1 } else { 0 } };
-    ContCase { content, dir, pkg, extra }
+    ContCase { content, dir, pkg, extra, id_gap: 0 }
 }
 
 pub struct CreatedCont {
@@ -135,7 +154,7 @@ pub fn create_container_ex(case: &ContCase, dir: &Path, name: &str, extras_dir: 
     for (i, ec) in case.extra.iter().enumerate() {
         let epath = camino::Utf8PathBuf::from_path_buf(extras_dir.join(format!("extra{}.jbkc", i + 2))).map_err(|_| "utf8")?;
         let out: Box<dyn jbk::creator::PackRecipient> = jbk::creator::AtomicOutFile::new(&epath).map_err(|e| format!("extra out: {e}"))?;
-        let mut c = ContentPackCreator::new_from_output(out, jbk::PackId::from(i as u16 + 2), vendor(), pack_free(case.dir.free, &format!("content:{}", i + 2)).into(), ec.comp.to_jbk()).map_err(|e| format!("extra new: {e}"))?;
+        let mut c = ContentPackCreator::new_from_output(out, jbk::PackId::from(case.pack_id(i + 1)), vendor(), pack_free(case.dir.free, &format!("content:{}", case.pack_id(i + 1))).into(), ec.comp.to_jbk()).map_err(|e| format!("extra new: {e}"))?;
         let a = add_all(&mut c, ec, &inputs).map_err(|e| format!("extra add: {e}"))?;
         extra_addrs.push(a);
         extras.push(c);
@@ -325,11 +344,11 @@ pub fn create_loose(case: &ContCase, dir: &Path, location: &dyn Fn(usize, &str) 
     for (pi, cc) in std::iter::once(&case.content).chain(case.extra.iter()).enumerate() {
         let fname = format!("pack{}.jbkc", pi + 1);
         let upath = camino::Utf8PathBuf::from_path_buf(dir.join(&fname)).map_err(|_| "utf8")?;
-        let mut c = ContentPackCreator::new(&upath, jbk::PackId::from(pi as u16 + 1), vendor(), pack_free(case.dir.free, &format!("content:{}", pi + 1)).into(), cc.comp.to_jbk()).map_err(|e| format!("content new: {e}"))?;
+        let mut c = ContentPackCreator::new(&upath, jbk::PackId::from(case.pack_id(pi)), vendor(), pack_free(case.dir.free, &format!("content:{}", case.pack_id(pi))).into(), cc.comp.to_jbk()).map_err(|e| format!("content new: {e}"))?;
         let addrs = add_all(&mut c, cc, &inputs).map_err(|e| format!("add_content: {e}"))?;
         let (_f, mut data) = c.finalize().map_err(|e| format!("content finalize: {e}"))?;
         // the free data recorded for this pack in the manifest (any length)
-        data.free_data = packinfo_free(case.dir.free, pi as u16 + 1);
+        data.free_data = packinfo_free(case.dir.free, case.pack_id(pi));
         pack_files.push((fname, data));
         all_addrs.push(addrs);
     }
